@@ -10,7 +10,7 @@ use crate::sem::{self, SemCase};
 use serde_json::{json, Value};
 use std::sync::OnceLock;
 
-pub const DECOS: [(&str, &str); 17] = [
+pub const DECOS: [(&str, &str); 20] = [
     ("space", " "),
     ("tab", "\t"),
     ("newline", "\n"),
@@ -28,6 +28,9 @@ pub const DECOS: [(&str, &str); 17] = [
     ("line-comment-with-quote", "// \"q\"\n"),
     ("splice", "\\\n"),
     ("block-star", "/* * / */"),
+    ("two-blocks", "/* a *//* b */"),
+    ("two-blocks-url", "/* set *//* see http://x */"),
+    ("block-then-line-comment", "/* a */// b\n"),
 ];
 
 #[derive(Clone, Debug)]
